@@ -231,7 +231,9 @@ def topClauses : List (String × (Dump → Aux → Bool)) := [
       | none => false),
   ("pu-osindex-unique", fun d _ => ((d.objs.filter (fun o => o.type == tPU)).map (·.osidx)).Nodup),
   ("numa-osindex-unique", fun d _ => ((d.objs.filter (fun o => o.type == tNUMA)).map (·.osidx)).Nodup),
-  ("gp-index-unique", fun d _ => (d.objs.map (·.gp)).Nodup)
+  ("gp-index-unique", fun d _ => (d.objs.map (·.gp)).Nodup),
+  ("normal-levels-nonempty", fun d _ => d.levels.all (fun l => decide (l.depth < 0) || !l.objs.isEmpty)),
+  ("depth-le-objects", fun d _ => decide (d.depth ≤ d.objs.length))
 ]
 
 /-- **well-formedness** (C01): every clause holds, for the topology and for every object -/
